@@ -184,3 +184,34 @@ def replay(rp):
         return 1
     print("property holds on this replay")
     return 0
+
+
+# ------------------------------------------------------------------------------------------------ contract of the list theorems on REAL calls
+CALL_STATS = {"MoveAfter": 0, "Swap": 0, "SwapLines": 0, "swap_neighbours": 0, "swap_far": 0, "runs_with_calls": 0}
+
+
+def judge_calls(R, findings):
+    """Every call of Chunk::MoveAfter / Swap / SwapLines made by the passes during a real run (hook records in <prefix>.N.lops) is judged
+    against the hypotheses of the list theorems of Properties_C02.v: arguments are chunks (not the null chunk), MoveAfter not onto itself's
+    absence, Swap with a different chunk that is a neighbour or with neither chunk first in the list (C02_swap_keeps_every_chunk),
+    SwapLines with two non-newline chunks of different lines (the shape for which swap_lines_guard holds)."""
+    recs = getattr(R, "lops", None) or []
+    if recs:
+        CALL_STATS["runs_with_calls"] += 1
+    for k, an, bn, same, ah, bh, b_before_a, a_before_b, nlbits, same_line in recs:
+        if k == "M":
+            CALL_STATS["MoveAfter"] += 1
+            if an or bn:
+                findings.append(("list-contract|MoveAfter|null", "Chunk::MoveAfter called with the null chunk (this null: %d, reference null: %d)" % (an, bn)))
+        elif k == "S":
+            CALL_STATS["Swap"] += 1
+            neigh = b_before_a or a_before_b
+            CALL_STATS["swap_neighbours" if neigh else "swap_far"] += 1
+            if an or bn or same or not (neigh or (not ah and not bh)):
+                findings.append(("list-contract|Swap", "Chunk::Swap called outside the contract of C02_swap_keeps_every_chunk (null: %d/%d, same chunk: %d, first of the list: %d/%d, "
+                                 "neighbours: %d): ChunkListManager::Swap loses a chunk there" % (an, bn, same, ah, bh, neigh)))
+        elif k == "L":
+            CALL_STATS["SwapLines"] += 1
+            if an or bn or nlbits or same_line:
+                findings.append(("list-contract|SwapLines", "Chunk::SwapLines called with a null chunk, a newline chunk or two chunks of one line (null: %d/%d, newline bits: %d, same line: %d)"
+                                 % (an, bn, nlbits, same_line)))
